@@ -1070,7 +1070,7 @@ def contract_compressed_all_paths(mk, geom, chi, opt):
                tc.maybe_unwrap, decomp.compute_oblique_projectors)
     if mk.sym and opt == "gauges-all":
         return _numeric_only(mk, "gauge_all_simple iterates to a numerical tolerance")
-    if mk.sym and geom in ("chord4", "full4") and chi == 2:
+    if mk.sym and ((geom in ("chord4", "full4") and chi == 2) or (geom == "full4" and chi == 4)):
         return _numeric_only(mk, "rank-2 compressions of merged tensors (2 x 2 SVD / chained QR with absorbed square roots): "
                                  "no certificate within the engine's degree bound")
     tn, out = graph_tn(mk, geom, kind="real", numkind="cplx")
@@ -1297,3 +1297,108 @@ def compress_between_cap(mk, opt, chi):
     mk.same(f"compress_between(max_bond={chi}, cutoff=0.0, {opt}): bond <= {chi}", max(tn.ind_size(shared[0]), chi) if shared else None, chi)
     mk.same("the callback is called once with the pair", len(seen), 1)
     mk.same("outer labels unchanged", sorted(tn.outer_inds()), ["o0", "o1", "o2", "o3", "p1", "p2"])
+
+
+# ---------------------------------------------------------------------- arbitrary-geometry compression methods
+
+def two_layer_tn(mk, geom, kind="real", numkind=None, pattern=None):
+    """two tensors per site (an operator layer acting on a state layer): sites = the nodes of the graph,
+    every edge carries one bond per layer (product bond 2 x 2 = 4 between neighbouring sites); one outer
+    label per site on the upper layer"""
+    n, edges, _ = GRAPHS[geom]
+    k = kind if mk.sym else (numkind or kind)
+    dim = (lambda e, layer: (pattern or {}).get((e, layer), 1)) if (mk.sym and pattern is not None) else (lambda e, layer: 2)
+    ts = []
+    for layer in ("A", "B"):
+        for i in range(n):
+            inds, shape = [], []
+            for e in edges:
+                if i in e:
+                    inds.append(f"{layer}{e[0]}{e[1]}")
+                    shape.append(dim(e, layer))
+            inds.append(f"m{i}")
+            shape.append(2)
+            if layer == "B":
+                inds.append(f"o{i}")
+                shape.append(2)
+            ts.append(qtn.Tensor(mk.array(f"{layer}{i}", tuple(shape), k), inds, tags=[f"I{i}", layer]))
+    tn = qtn.TensorNetwork(ts)
+    out = tuple(f"o{i}" for i in range(n))
+    return tn, out, [f"I{i}" for i in range(n)]
+
+
+AG_OPTS = {
+    "local-early": dict(method="local-early"),
+    "local-early-nocanon": dict(method="local-early", canonize=False),
+    "local-early-basic": dict(method="local-early", mode="basic", tree_gauge_distance=1),
+    "local-late": dict(method="local-late"),
+    "local-late-nocanon": dict(method="local-late", canonize=False),
+    "projector": dict(method="projector"),
+    "projector-nocanon": dict(method="projector", canonize=False),
+    "projector-lazy": dict(method="projector", canonize=False, lazy=True),
+    "superorthogonal": dict(method="superorthogonal"),
+    "su-nocanon": dict(method="su", canonize=False),
+    "l2bp": dict(method="l2bp"),
+    "l2bp-nocanon": dict(method="l2bp", canonize=False),
+}
+_AG_NUMERIC_ONLY = {"superorthogonal": "simple-update gauging iterates to a tolerance", "l2bp": "belief propagation iterates to a tolerance",
+                    "local-early": "virtual-tree oblique projectors: no certificate within the engine's degree bound",
+                    "local-late": "virtual-tree oblique projectors: no certificate within the engine's degree bound",
+                    "projector": "simple-update gauging iterates to a tolerance", "projector-nocanon": "oblique projectors from Gram "
+                    "matrices: no certificate within the engine's degree bound", "projector-lazy": "oblique projectors from Gram matrices: "
+                    "no certificate within the engine's degree bound", "su-nocanon": "inverse gauges: no certificate within the engine's degree bound",
+                    "l2bp-nocanon": "message square roots / inverses: no certificate within the engine's degree bound"}
+
+
+def _ag_params():
+    out = []
+    for geom in ("path3", "ring3"):
+        for opt in AG_OPTS:
+            for cap in (4, 6, None):
+                q = cap == 4 and geom == "path3" and opt in ("local-early-nocanon", "local-late-nocanon", "local-early-basic", "projector-nocanon", "su-nocanon")
+                out.append({"geom": geom, "opt": opt, "cap": cap, "_tiers": _Q if q else _T})
+    return out
+
+
+GRAPHS["path3"] = (3, [(0, 1), (1, 2)], {})
+GRAPHS["ring3"] = (3, [(0, 1), (1, 2), (0, 2)], {})
+
+
+@obligation(PROP, params=_ag_params(), **_CERT)
+@certified
+def ag_compress_exact(mk, geom, opt, cap):
+    """tensor_network_ag_compress (each registered method) on a two-layer network with cap >= the product
+    bond (4) and cutoff 0: the compressed network denotes the same dense tensor, one tensor per site"""
+    mk.encodes(agc.tensor_network_ag_compress, agc.tensor_network_ag_compress_local_early, agc.tensor_network_ag_compress_local_late,
+               agc.tensor_network_ag_compress_projector, agc.tensor_network_ag_compress_superorthogonal,
+               agc.tensor_network_ag_compress_l2bp, tc.TensorNetwork.compress_all, tc.TensorNetwork._compress_between_tids)
+    if mk.sym and opt in _AG_NUMERIC_ONLY:
+        return _numeric_only(mk, _AG_NUMERIC_ONLY[opt])
+    pattern = {((0, 1), "A"): 2, ((0, 1), "B"): 2}
+    tn, out, sites = two_layer_tn(mk, geom, kind="real", numkind="cplx", pattern=pattern)
+    want = exact(tn, out)
+    with spectrum("pos"):
+        res = agc.tensor_network_ag_compress(tn, max_bond=cap, cutoff=0.0, site_tags=sites, **AG_OPTS[opt])
+    mk.same("a new network is returned", res is not tn, True)
+    if not AG_OPTS[opt].get("lazy"):
+        mk.same("one tensor per site", [len(res.tag_map[s]) for s in sites], [1] * len(sites))
+    mk.eq(f"tensor_network_ag_compress(max_bond={cap}, cutoff=0.0, {opt}): dense tensor unchanged", exact(res, out), want)
+    mk.eq("the input network is left alone", exact(tn, out), want)
+
+
+@obligation(PROP, params=[{"geom": g, "opt": o, "chi": c, "_tiers": _Q if (g == "ring3" and c == 3 and "nocanon" in o) else _T}
+                          for g in ("path3", "ring3", "ring4") for o in AG_OPTS for c in (1, 2, 3)], wall_s=300, timeout_s=400, max_paths=64)
+def ag_compress_cap(mk, geom, opt, chi):
+    """tensor_network_ag_compress with a truncating cap (below the product bond 4) and cutoff 0: afterwards
+    no two tensors share more than chi"""
+    mk.encodes(agc.tensor_network_ag_compress, agc.tensor_network_ag_compress_local_early, agc.tensor_network_ag_compress_local_late,
+               agc.tensor_network_ag_compress_projector, agc.tensor_network_ag_compress_superorthogonal, agc.tensor_network_ag_compress_l2bp)
+    if mk.sym and opt in ("superorthogonal", "l2bp", "projector", "local-early", "local-late"):
+        return _numeric_only(mk, "iterates to a numerical tolerance / gauges by simple update")
+    tn, out, sites = two_layer_tn(mk, geom, kind="real", numkind="cplx")
+    with shapes_only():
+        res = agc.tensor_network_ag_compress(tn, max_bond=chi, cutoff=0.0, site_tags=sites, **AG_OPTS[opt])
+    cap_goal(mk, f"tensor_network_ag_compress(max_bond={chi}, cutoff=0.0, {opt})", res, chi)
+    mk.same("outer labels unchanged", sorted(res.outer_inds()), sorted(out))
+    if not AG_OPTS[opt].get("lazy"):
+        mk.same("one tensor per site", [len(res.tag_map[s]) for s in sites], [1] * len(sites))
